@@ -262,6 +262,11 @@ def search(rec, ctx):
         check(rec, {"src": src, "stream": "g7-fstring-in-layout"})
 
     drive(st.randoms(use_true_random=False), fstr, ctx.budget(5000, 120000), ctx.hseed("fstr"))
+    from .c10 import EDGE_FORMS
+
+    for lit in ctx.shard(EDGE_FORMS):
+        for tmpl in ("x = {S}\n", "if c:\n    y = {S}\nz = 1\n", "f({S},\n  {S})\n"):
+            check(rec, {"src": tmpl.replace("{S}", lit), "stream": "g7-fstring-edge-forms"})
 
     crng = ctx.rng("corpus")
     if ctx.thorough:
